@@ -35,6 +35,16 @@ def run(ctx, rep):
     r1(ctx, rep, res, where)
     r2(ctx, rep, res, where)
     r3(ctx, rep)
+    # every RFC spelling of a number literal is accepted and nothing else is: divergences whose rule path lies in number / int /
+    # frac / exp (a float spelling such as 1e02 that is rejected makes equivalent spellings behave differently)
+    rep.rule("C13-R6", "number spellings: no divergence between the grammar (with post-checks) and the ABNF inside number literals")
+    ndiv = 0
+    for k, d in sorted(GM.divergences(res).items()):
+        if re.search(r"(^|[/:+])(number|int|frac|exp)(/|\+|$)", k[1]) or "literal/number" in k[1]:
+            ndiv += 1
+            rep.bad("C13-R6", "div|%s|%s|%s" % k, where, "a number spelling is %s: `%s` (rule %s)" % (
+                "accepted although RFC 9535 has no such spelling" if k[0] == "impl-only" else "rejected although RFC 9535 allows it", d["witness"], k[1]))
+    rep.ok("C13-R6", "number-divergences", where, "%d divergence class(es) inside number literals" % ndiv)
     # spellings of one number (2 / 2.0 / 2e0) and of one name ('a' / "a" / .a) must meet the same evaluator paths
     from vflib.report import Shared
     from vflib.terms import Evaluator
